@@ -710,6 +710,12 @@ class SymEnum:
     def __repr__(self):
         return "<SymEnum of %d>" % len(self.vals)
 
+    def __getattr__(self, name):
+        # any other operation needs the concrete value: fork over the feasible ones
+        if name.startswith("__") or name in ("sel", "vals"):
+            raise AttributeError(name)
+        return getattr(self.get(), name)
+
     def __iter__(self):
         return iter(self.get())
 
